@@ -1,9 +1,10 @@
 use crate::runner::Engine;
 
 pub mod c08;
+pub mod c12;
 
 pub fn engines() -> Vec<&'static Engine> {
-    vec![&c08::ENGINE]
+    vec![&c08::ENGINE, &c12::ENGINE]
 }
 
 pub fn engine(id: &str) -> Option<&'static Engine> {
